@@ -13,3 +13,16 @@ Theorem call_once_small_configurations :
   explore_once [[true; false]; [false]; [false]] 8 = true.
 Proof. exact once_small_configs. Qed.
 Print Assumptions call_once_small_configurations.
+
+(* EXHAUSTIVE over all interleavings (a checked closed set of configurations, Lib/Explore.v — not a bound on schedule length) for
+   five configurations: two callers; a throwing first attempt with a retrying second caller; both callers' attempts throw;
+   three callers (two helpers in the reference window at once); three callers with a throwing first attempt.
+   In every reachable configuration: no access to a destroyed runner; at most one successful execution; a caller that returned
+   normally did so after the successful execution and with the flag `done`; no stuck state (whenever somebody has not returned,
+   some thread can step); when everybody has returned: exactly one success and `done` — or, if every caller's own attempt threw,
+   no success and the flag back in the not-called state. *)
+From OTV Require Import Lib.Explore OnceExplore.
+Theorem call_once_all_interleavings : forall throws c,
+  In throws once_configs -> reach ostep (oinit throws) c -> once_good c = true.
+Proof. exact once_all_interleavings. Qed.
+Print Assumptions call_once_all_interleavings.
